@@ -58,8 +58,22 @@ def _pool_and_compare(ctx, q):
     pools = [c for c in r.calls if any(x in POOLS for x in c.callees)]
     cmps = [c for c in r.calls if any(x.endswith('rdm.compare.compare') for x in c.callees)]
     if not pools or not cmps:
-        raise AnalysisError(f'{q}: pool_rdm / compare calls not found')
+        return r, None, None
     return r, pools, cmps
+
+
+def _moved_out(ctx, obs, q):
+    """the pooling / comparing statements are not in q (nor in helpers the pre-pass could inline): every clause about them is
+    undecided - as many obligations as the rule would have stated, so that instance floors keep their meaning"""
+    f = ctx.prog.func(q)
+    for rule, con in (('NI', 'lower bound pools the ceiling (training) set of the fold, not the held-out RDMs'),
+                      ('NI', 'lower bound pools the RDMs entry ([0]) of the fold tuple'),
+                      ('ND', 'upper bound pools all RDMs'), ('ND', 'compare scores against the held-out RDMs'),
+                      ('ND', 'compare scores a pooled prediction'), ('FWD', 'pool_rdm receives method'),
+                      ('FWD', 'compare receives method'), ('PAIR', 'ceiling set and test set are read at the same fold index'),
+                      ('ND', 'returns (lower, upper)')):
+        obs.unk(rule, q, con, 'pool_rdm / compare are not called in this function: the computation was moved out of reach of the '
+                'inlining pre-pass', where(ctx.prog, f, f.node))
 
 
 def boot(ctx, obs):
@@ -67,6 +81,9 @@ def boot(ctx, obs):
     q = NC + 'boot_noise_ceiling'
     f = prog.func(q)
     r, pools, cmps = _pool_and_compare(ctx, q)
+    if pools is None:
+        _moved_out(ctx, obs, q)
+        return
     inl = Inliner(r, None, (), stop=('rdms',))
     lower = [c for c in pools if c.in_loops]
     upper = [c for c in pools if not c.in_loops]
@@ -164,6 +181,9 @@ def cv(ctx, obs):
     q = NC + 'cv_noise_ceiling'
     f = prog.func(q)
     r, pools, cmps = _pool_and_compare(ctx, q)
+    if pools is None:
+        _moved_out(ctx, obs, q)
+        return
     rd = ctx.dep.analyze(q, data_only=True)
     pools_d = [c for c in rd.calls if any(x in POOLS for x in c.callees)]
     inl = Inliner(r, None, ('rdms', 'ceil_set', 'test_set'))
